@@ -11,7 +11,7 @@ from vprim import implies
 CIRCLE_SKY = 'regions/shapes/circle.py::CircleSkyRegion'
 POLY_SKY = 'regions/shapes/polygon.py::PolygonSkyRegion'
 
-VALUES = ('pos', 'nonpos', 'posint', 'zeroint', 'nan', 'inf', 'ninf', 'str', 'none', 'list', 'tuple', 'arr1', 'bool',
+VALUES = ('pos', 'nonpos', 'posint', 'zeroint', 'nan', 'inf', 'ninf', 'str', 'none', 'list', 'tuple', 'arr0', 'arr1', 'bool',
           'q_pix', 'q_deg_pos', 'q_deg_nonpos', 'q_deg_inf', 'q_deg_nan', 'q_rad_any', 'q_deg_arr', 'pix_scalar', 'pix_arr1', 'pix_arr2',
           'sky_scalar', 'sky_arr1', 'dict')
 
@@ -48,6 +48,8 @@ def make_value(B, kind):
         return [1.0, 2.0]
     if kind == 'tuple':
         return (1.0,)
+    if kind == 'arr0':
+        return B.call(np.array, B.real('v0'))          # a 0-d array is not a scalar
     if kind == 'arr1':
         return B.array('va', (B.int('va.n'),))
     if kind == 'bool':
@@ -441,3 +443,33 @@ class meta_visual_assignment:
         'stored_as_the_right_class': lambda obj, which, result:
             result[1].__class__.__name__ == ('RegionMeta' if which == 'meta' else 'RegionVisual'),
     }
+
+
+CIRCLE_ANN_SKY = 'regions/shapes/annulus.py::CircleAnnulusSkyRegion'
+ELL_ANN_SKY = 'regions/shapes/annulus.py::EllipseAnnulusSkyRegion'
+RECT_ANN_SKY = 'regions/shapes/annulus.py::RectangleAnnulusSkyRegion'
+
+
+@contract(CIRCLE_ANN_SKY, props=['C17', 'C08'])
+class sky_circle_annulus_constructor:
+    """the ordering test must compare angles, whatever units the two radii are expressed in"""
+    cases = {a + '/' + b: {'ui': a, 'uo': b} for a in ('arcsec', 'arcmin', 'deg') for b in ('arcsec', 'arcmin', 'deg')}
+
+    def setup(B, ui='arcsec', uo='arcsec'):
+        return dict(center=sky(B, 'c'), inner_radius=B.quantity('ri', ui), outer_radius=B.quantity('ro', uo))
+    pre = lambda inner_radius, outer_radius: inner_radius.to_value('rad') > 0 and outer_radius.to_value('rad') > 0
+    raises = {'ValueError': lambda inner_radius, outer_radius: inner_radius.to_value('rad') >= outer_radius.to_value('rad')}
+    post = {'stores': lambda inner_radius, outer_radius, result:
+            result.inner_radius is inner_radius and result.outer_radius is outer_radius}
+
+
+@contract(ELL_ANN_SKY, props=['C17', 'C08'])
+class sky_asym_annulus_constructor:
+    cases = {k + '-' + a + '/' + b: {'kind': k, 'ui': a, 'uo': b} for k in ('ellipse', 'rectangle') for a in ('arcsec', 'deg') for b in ('arcsec', 'arcmin')}
+
+    def setup(B, kind='ellipse', ui='arcsec', uo='arcsec'):
+        return dict(cls=B.ref(ELL_ANN_SKY if kind == 'ellipse' else RECT_ANN_SKY), center=sky(B, 'c'), iw=B.quantity('iw', ui), ow=B.quantity('ow', uo),
+                    ih=B.quantity('ih', ui), oh=B.quantity('oh', uo), angle=B.quantity('a', 'deg'))
+    pre = lambda iw, ow, ih, oh: iw.to_value('rad') > 0 and ow.to_value('rad') > 0 and ih.to_value('rad') > 0 and oh.to_value('rad') > 0
+    call = lambda cls, center, iw, ow, ih, oh, angle: cls(center, iw, ow, ih, oh, angle)
+    raises = {'ValueError': lambda iw, ow, ih, oh: iw.to_value('rad') >= ow.to_value('rad') or ih.to_value('rad') >= oh.to_value('rad')}
